@@ -357,7 +357,11 @@ func ProofAuthenticate(cfg ProofConfig, inner AuthenticateFunc) (AuthenticateFun
 	}
 	var cache *nonceCache
 	if !cfg.DisableReplayCache {
-		cache = newNonceCache(time.Duration(cfg.SkewSeconds)*time.Second, capacity, cfg.Now)
+		// The window is two-sided: a proof stamped skew seconds ahead of the
+		// clock that first accepts it stays acceptable for 2*skew more whole
+		// seconds, so its nonce must outlive that span (plus the sub-second
+		// remainder) or the proof can be replayed once the entry expires.
+		cache = newNonceCache(time.Duration(2*cfg.SkewSeconds+1)*time.Second, capacity, cfg.Now)
 	}
 	required := cfg.Mode == ProofModeRequire
 	local := cfg
